@@ -220,14 +220,18 @@ JudgeFull(pre, l, cand) ==
           \cup (IF post.ended /\ l.ended /\ l.ev.t = "PreEnd" /\ l.gor > 0 THEN {"C28/goroutines-after-end"} ELSE {})
           \cup (IF l.ev.t = "End" /\ (l.leaked > 0 \/ ~l.ended) THEN {"C28/goroutines-after-close"} ELSE {})
           \cup (IF l.ev.t = "PreEnd" /\ post.ended /\ l.napi > 0 THEN {"C28/call-blocked-after-end"} ELSE {})
-    IN IF l.ev.t = "End" THEN sigEnd
+          \* the driver's watchdog found goroutines of the client waiting for a mutex for ever (virtual time
+          \* cannot even advance): pending calls never return, the goroutines never exit
+          \cup (IF l.ev.t = "Hang"
+                THEN {IF l.ev.h = "" THEN "DESYNC/hang/unexplained" ELSE "C28/goroutine-blocked-forever/" \o l.ev.h} ELSE {})
+    IN IF l.ev.t \in {"End", "Hang"} THEN sigEnd
        ELSE sigOut \cup sigOutGap \cup sigRet \cup sigRetGap \cup sigCb \cup sigEnd
 
 (* fast path: a line on which nothing was expected and nothing was observed *)
 Judge(pre, l, cand) ==
     IF /\ l.out = <<>> /\ l.rets = <<>> /\ l.cbs = <<>> /\ cand.r.out = <<>> /\ cand.r.rets = {}
        /\ cand.missed.out = <<>> /\ cand.missed.rets = {} /\ ~cand.r.deliv.on
-       /\ l.ev.t \notin {"PreEnd", "End"} /\ ~cand.r.s.ended
+       /\ l.ev.t \notin {"PreEnd", "End", "Hang"} /\ ~cand.r.s.ended
        /\ \A c \in DOMAIN cand.r.s.calls : cand.r.s.calls[c].dl >= 0
     THEN {}
     ELSE JudgeFull(pre, l, cand)
